@@ -831,6 +831,49 @@ func (sc *Scope) callExpr(e *Expr) (tv, error) {
 		// uf("name", args...) : uninterpreted Int-valued function of Int/any scalar args (ghost)
 		return errf("uf not supported")
 	}
+	if strings.HasPrefix(e.Name, "$") && len(args) >= 1 {
+		ab := eng.db.Abstracts[e.Name]
+		if ab == nil {
+			return errf("undeclared abstract function %s", e.Name)
+		}
+		if _, isI := args[0].typ.Underlying().(*types.Interface); isI {
+			rt := eng.typeByText(ab.Ret)
+			if rt == nil {
+				return errf("abstract %s: unknown type %s", e.Name, ab.Ret)
+			}
+			sort := eng.sortOf(rt)
+			if sort == "" {
+				return errf("abstract %s: composite result", e.Name)
+			}
+			idx := make([]Term, len(args))
+			for i := range args {
+				idx[i] = scal(i)
+			}
+			return tv{sv{vc.loadScalar(sc.cur, "A:"+e.Name, idx, sort)}, rt}, nil
+		}
+		dn := e.Name + "@" + namedNameBare(derefT(args[0].typ))
+		d, ok := eng.db.Defines[dn]
+		if !ok {
+			return errf("no define %s", dn)
+		}
+		return sc.expandDefine(d, args, e)
+	}
+	if e.Name == "unchanged" && len(args) == 1 {
+		_, et, ok := structOf(args[0].typ)
+		r, isRef := args[0].sym.(sv)
+		if !ok || !isRef {
+			return errf("unchanged needs a struct pointer")
+		}
+		var ks []string
+		vc.keysOfType("F:"+structName(et), et, &ks)
+		vc.touchKeysForType(sc.cur, "F:"+structName(et), et, 1)
+		var parts []Term
+		for _, k := range ks {
+			ki := vc.keys[k]
+			parts = append(parts, fmt.Sprintf("(= (select %s %s) (select %s %s))", vc.heapGet(sc.cur, k, ki.sort), r.t, vc.heapGet(sc.old, k, ki.sort), r.t))
+		}
+		return tv{sv{and(parts...)}, tBool}, nil
+	}
 	if d, ok := eng.db.Defines[e.Name]; ok {
 		return sc.expandDefine(d, args, e)
 	}
